@@ -9,6 +9,12 @@ TB = ("TLC 1.8 and the hand-written specification (spec/*.tla); the conformance 
       "inputs by the small-scope arguments of DESIGN.md 2.5")
 
 CHECKS = {
+ "C08": ("model_checking", "Every multi-spline entry point is run on TLC-enumerated grid variants (one point moved, extra point front/back/inside, prefix, suffix, equal copy in a distinct object) and placements: stateless events for + - * += -= linearCombination, supports, operators/forms with a foreign spline factor, generator with a supplied grid; plus TLC-generated histories with interleaved cross-grid calls validated sequentially (Trace_Life): refusal with DIFFERING_GRIDS, nothing returned, arguments unchanged; equal grids in distinct objects behave as one.", "5 C08",
+         "TLA+ spec + TLC-generated cases and histories + stateless and sequential trace validation of refusals and frame conditions"),
+ "C10": ("model_checking", "TLC checks PoolValid and the step contracts on the model of the object-pool state machine (MC_Life: simulation seeded with VERIF_SEED and exhaustive BFS of all two-command continuations) and emits the histories; real objects execute them (builds with and without BSPLINE_ADD_TEST_CHECKS) and the sequential trace specification Trace_Life evaluates the class invariants on every logged object after every step, incl. moved-from objects and failed calls; stateless results of all arithmetic are checked for validity too.", "5 C10",
+         "TLA+ object-pool state machine + TLC simulation/BFS history generation + sequential trace validation (invariants after every step)"),
+ "C14": ("model_checking", "Same histories as C10; the harness logs the projection delta of ALL live slots after every call, coefficient-storage aliasing, grid block contents and use counts; Trace_Life accepts a step only if nothing outside the declared target changed, a throwing step changed nothing, no storage is aliased and no grid block was written. Stateless events additionally compare every operand before/after each call.", "5 C14",
+         "TLA+ frame conditions (action properties) + sequential trace validation of logged deltas of the whole pool"),
  "C01": ("model_checking", "TLC checks on every enumerated knot vector that the Cox-de Boor definition has local support, partition of unity, C^{p-mu} smoothness, non-negativity and the integral identity, and that the implementation-shaped recursion (zeroth order via findElement, then prefac*(X<1>-t_i)*B_i += ...) refines it; the real generator (both routes and the free function, exact scalar) runs every knot vector and TLC accepts the logged basis iff GenPost holds.", "5 C01",
          "TLA+ spec of the Cox-de Boor recursion + TLC model checking of its theorems and of the implementation-shaped model + trace validation of generated bases from the real code"),
  "C04": ("model_checking", "TLC checks falling-factorial derivative and binomial position expansion (Level I) against d^n/du^n and n-fold multiplication by (u+xm) (Level A); the real Dx<n>, X<n>, IdentityOperator are applied with the exact scalar to unit-vector and generic splines on every window incl. an off-origin grid and validated by TLC.", "5 C04",
